@@ -225,7 +225,10 @@ namespace _tuple {
 			typedef tuple_concater<Ret, index, Tuples...> next;
 			return next::do_concat(std::forward<Tuples>(tps)...,
 					std::forward<Res>(res)...,
-					std::move(tp.template get<Indices>())...);
+					// Forward each element as its declared type: an rvalue for values,
+					// the referenced object for reference elements (tuple<T &>).
+					static_cast<typename std::tuple_element<Indices,
+							std::remove_reference_t<Tuple>>::type &&>(tp.template get<Indices>())...);
 		}
 	};
 
